@@ -288,15 +288,15 @@ def gen_pool(rng, i, ordered):
         pool.append(dict(kind='ok', tchans=int(rng.integers(1, 9)), t0=round(t, 3), flip=bool(rng.random() < 0.2),
                          sub=bool(rng.random() < 0.1)))
     for a in GUARD:
-        pool.append(dict(kind='bad', alt={a: ['small', 'large'][(i + GUARD.index(a)) % 2]}, tchans=int(rng.integers(1, 9)),
+        pool.append(dict(kind='bad', alt={a: ['small', 'large'][common.stratum(i, 181 + GUARD.index(a), 2)]}, tchans=int(rng.integers(1, 9)),
                          t0=round(float(rng.uniform(0, 40000)), 3)))
     tw = dict(pool[n_ok + int(rng.integers(4))])
     tw.update(t0=round(float(rng.uniform(0, 40000)), 3), tchans=int(rng.integers(1, 9)))
     pool.append(tw)
-    if i % 3 == 0:
+    if common.stratum(i, 186, 3) == 0:
         a, b = rng.choice(4, size=2, replace=False)
         pool.append(dict(kind='bad', alt={GUARD[int(a)]: 'large', GUARD[int(b)]: 'small'}, tchans=2, t0=123.5))
-    k0 = i % len(NONFRAMES)
+    k0 = common.stratum(i, 187, len(NONFRAMES))
     for k in range(int(rng.integers(3, 6))):
         pool.append(dict(kind='non', what=NONFRAMES[(k0 + k) % len(NONFRAMES)]))
     perm = rng.permutation(len(pool))
@@ -541,9 +541,9 @@ def gen_cases(seed, tier):
         ordered = bool(i % 2)
         j = i // 2
         fl = foc[ordered]
-        focus = fl[j % len(fl)]
-        order = ORDERS[(j // len(fl)) % len(ORDERS)] if ordered else None
-        if ordered and j % 7 == 3:
+        focus = common.stratum(j, 188, fl)
+        order = common.stratum(j, 189, ORDERS) if ordered else None
+        if ordered and common.stratum(j, 190, 7) == 3:
             order = ''.join(pick(rng, 'ABCD') for _ in range(int(rng.integers(1, 16))))
         pool = gen_pool(rng, i, ordered)
         geom = dict(fchans=int(pick(rng, [4, 8, 16, 32, 5])), df=float(pick(rng, common.UGLY_DF)),
